@@ -40,6 +40,10 @@ def generate(rng, tier):
     for p in sc.gen_manual(rng, 60 * n, thens=("exit",)):
         p["broad"] = True
         out.append(p)
+    # extend()/remove() from a doer's enter context while its scheduler enters its doers (oracle only)
+    for p in sc.gen_enter_effects(rng, 60 * n):
+        p["broad"] = True
+        out.append(p)
     return out
 
 
